@@ -14,7 +14,7 @@ func init() {
 	register(&Property{
 		ID:          "C18",
 		Engines:     []string{"cfg", "lockset"},
-		Explanation: "Stop, structural part (termination itself is liveness): Engine.Stop performs its steps in the order listeners -> snapshot under the engine mutex -> close every snapshot entry -> wgConn.Wait -> stop hook -> timer / IO pool -> IO pollers -> WaitGroup.Wait, with both waits on every path to the return (O1); poller.stop stores the shutdown flag before the wake-up and both loops re-read it every iteration (O2); every poller goroutine is started after Add(1), defers Done first and (IO pollers) the close of its descriptors, newPoller closes what it opened on each error exit, nbhttp.listen pairs Add with a deferred Done (O3); nbhttp Stop/Shutdown stop listeners, listener mux and pools in the required order (O4); lmux.Stop closes every listener and the close channel and Accept selects on it (O5); the connection WaitGroup Add/Done sites are the frozen sets (O6). The blocking readers' clean-up untracks, reports and releases on every path (O7); every torn-down connection reaches the close notification (O8). Only poller.stop writes the shutdown flag (O10); Shutdown's wait loop sweeps every iteration (O11).",
+		Explanation: "Stop, structural part (termination itself is liveness): Engine.Stop performs its steps in the order listeners -> snapshot under the engine mutex -> close every snapshot entry -> wgConn.Wait -> stop hook -> timer / IO pool -> IO pollers -> WaitGroup.Wait, with both waits on every path to the return (O1); poller.stop stores the shutdown flag before the wake-up and both loops re-read it every iteration (O2); every poller goroutine is started after Add(1), defers Done first and (IO pollers) the close of its descriptors, newPoller closes what it opened on each error exit, nbhttp.listen pairs Add with a deferred Done (O3); nbhttp Stop/Shutdown stop listeners, listener mux and pools in the required order (O4); lmux.Stop closes every listener and the close channel and Accept selects on it (O5); the connection WaitGroup Add/Done sites are the frozen sets (O6). The blocking readers' clean-up untracks, reports and releases on every path (O7); every torn-down connection reaches the close notification (O8). Only poller.stop writes the shutdown flag (O10); Shutdown's wait loop sweeps every iteration (O11). The plain reader closes its connection (O7); dialer registration failure without notification (O12); queue sends releasable by Stop (O13); transferred connections tracked before registration (O14).",
 		NotCovered:  "that Stop returns; goroutine / descriptor counts; races of Stop with accepts and callbacks",
 		Run:         runC18,
 	})
@@ -24,7 +24,7 @@ func runC18(c *Ctx) {
 	c.Rule("C18.O1", "E4", "Engine.Stop: listeners -> snapshot (under Engine.mux) -> closes -> wgConn.Wait -> onStop -> Timer.Stop / ioTaskPool.Stop -> pollers -> WaitGroup.Wait; both waits dominate the return", 2)
 	c.Rule("C18.O2", "E4", "poller.stop stores shutdown before the wake-up; acceptorLoop and readWriteLoop re-read shutdown in their loop condition", 3)
 	c.Rule("C18.O3", "E4", "go p.start() preceded by Add(1); start defers Done first and the descriptor closes before the IO loop; newPoller closes opened descriptors on error exits; nbhttp.listen pairs Add/deferred Done", 4)
-	c.Rule("C18.O4", "E5", "nbhttp.Stop: shutdown flag, listeners, then core Stop; stopListeners stops the mux in mixed mode; the stop hook stops both pools and replaces the executors; Shutdown closes tracked connections before delegating", 4)
+	c.Rule("C18.O4", "E5", "nbhttp.Stop: shutdown flag, listeners, then core Stop; stopListeners stops the mux in mixed mode; the stop hook stops both pools and replaces the executors; Shutdown closes tracked connections before delegating; Stop closes them too (the blocking-mode ones are known only to the HTTP engine)", 5)
 	c.Rule("C18.O5", "E4", "lmux.Stop closes each underlying listener and the close channel; ChanListener.Accept selects on the close channel", 2)
 	c.Rule("C18.O11", "E4", "nbhttp Shutdown's wait loop closes the tracked connections on every iteration, not only before the loop: connections that appear in the tables after the first sweep are closed too", 1)
 	c.Rule("C18.O12", "E4", "a dialer whose registration fails is torn down without a close notification (Conn.p is nil when addDialer runs the teardown): DialAsyncTimeout releases the connection WaitGroup count itself on that error, a notifying teardown would release it twice and Stop's accounting goes negative", 2)
@@ -331,6 +331,14 @@ func runC18(c *Ctx) {
 		}
 		ok := flag != nil && lst != nil && core != nil && fi.Dominates(flag, lst) && fi.Dominates(lst, core)
 		c.Cond(ok, "C18.O4", fnKey(c.P, st, "flag, listeners, core"), c.FnPos(st), "shutdown=true -> stopListeners -> core Stop", "nbhttp.Stop does not set the flag, stop the listeners and then stop the core engine in that order")
+		// the connections read by blocking-mode goroutines are known only to the HTTP engine
+		var sweep ssa.Instruction
+		for _, cs := range c.P.CallsNamed(st, "(*nbhttp.Engine).closeAllConns") {
+			sweep = cs.In
+		}
+		okSweep := sweep != nil && lst != nil && core != nil && fi.Dominates(lst, sweep) && fi.Dominates(sweep, core)
+		c.Cond(okSweep, "C18.O4", fnKey(c.P, st, "tracked connections closed"), c.FnPos(st), "stopListeners -> closeAllConns -> core Stop",
+			"nbhttp.Stop does not close the connections it tracks (closeAllConns between stopListeners and the core Stop): the core engine closes only what its pollers serve, so in IOModBlocking / IOModMixed Stop returns with the blocking-mode connections open, their reader goroutines and descriptors alive")
 	}
 	if sl := c.Fn("C18.O4", "(*nbhttp.Engine).stopListeners"); sl != nil {
 		mux := len(c.P.CallsNamed(sl, "(*lmux.ListenerMux).Stop")) == 1
